@@ -451,6 +451,7 @@ func (m *Model) Pull(s *MSub, max int, resp []RecvMsg, t0, t1 time.Time) *Violat
 			}
 			// find an unbound expected delivery for (s,msg)
 			best := -1
+			var ties []*ED
 			for _, x := range s.EDs {
 				if x.Msg == msg && x.AckID == "" && !seen[x] && x.State != stGone {
 					// prefer a definite, eligible expectation over an optional (fuzzy) one so
@@ -470,8 +471,18 @@ func (m *Model) Pull(s *MSub, max int, resp []RecvMsg, t0, t1 time.Time) *Violat
 					}
 					if score > best {
 						best, e = score, x
+						ties = ties[:0]
+					} else if score == best {
+						ties = append(ties, x)
 					}
 				}
+			}
+			// several equally plausible expectations for one unknown ack id (copies of one
+			// message on one subscription, e.g. a dead-letter cycle): the binding is a guess,
+			// so the ones not chosen are no longer required (they may be the real match)
+			for _, x := range ties {
+				x.Fuzzy = true
+				m.probe("ambiguous_binding")
 			}
 			if e == nil {
 				// is it a second ack id for an already-bound delivery? (forwarded twice / duplicate row)
